@@ -1,5 +1,6 @@
 mod common;
 mod tl;
+mod ts;
 use serde_json::Value;
 use std::io::{BufRead, BufReader};
 
@@ -32,6 +33,11 @@ fn main() {
             let mut tally = tl::Tally::new();
             for (i, l) in lines.iter().enumerate() { tl::replay_tl_line(&mut tally, i + 1, l, &scales); }
             println!("{}", tally.report());
+        }
+        "drive-ts" => {
+            // drive-ts <seed> <configs> <out.ndjson>
+            let r = ts::drive_ts(args[2].parse().unwrap(), args[3].parse().unwrap(), &args[4]);
+            println!("{}", r);
         }
         _ => { eprintln!("usage: harness <replay-tl file [scales]>"); std::process::exit(2); }
     }
